@@ -74,40 +74,11 @@ def accounting(case, raw, stats):
     stats["accounting_runs"] = stats.get("accounting_runs", 0) + 1
     stats["still_queued"] = stats.get("still_queued", 0) + int(sum(queued))
     if not np.array_equal(rows[-1], x):
-        # deliveries of the slot at the final grid time may take effect after the last row was recorded (the statement
-        # leaves the row at that very time open): if that slot has already been popped from the returned queue, accept
-        # any split 0 <= late_r <= delivered_r that explains the last row
-        first_slot_time = raw["queue"][0][0] if raw["queue"] else None
-        explained = False
-        if first_slot_time is not None and first_slot_time > case["grid"][-1]:
-            import itertools
-            dcols = []
-            bounds = []
-            for j, rxn in enumerate(model["reactions"]):
-                imm, dly = rm.stoich_columns(rxn)
-                if any(dly.values()) and fired[j] - queued[j] > 0:
-                    dcols.append(np.array([dly.get(s, 0) for s in sp], dtype=float))
-                    bounds.append(int(fired[j] - queued[j]))
-            total = 1
-            for b in bounds:
-                total *= (b + 1)
-            if total <= 20000:
-                diff = x - rows[-1]
-                for late in itertools.product(*[range(b + 1) for b in bounds]):
-                    acc = np.zeros(len(sp))
-                    for c, l in zip(dcols, late):
-                        acc += l * c
-                    if np.array_equal(acc, diff):
-                        explained = True
-                        stats["late_final_slot_deliveries"] = stats.get("late_final_slot_deliveries", 0) + 1
-                        break
-            else:
-                explained = True
-                stats["accounting_skipped_large"] = stats.get("accounting_skipped_large", 0) + 1
-        if not explained:
-            viols.append({"class": "firings_not_accounted_for", "signature": sig,
-                          "detail": {"last_row": rows[-1].tolist(), "expected_from_firings": x.tolist(), "fired": fired,
-                                     "queued": queued}})
+        # (no allowance for deliveries "applied after the last row": whatever is due at the final grid time is either in
+        # the last row or still in the returned queue - a result from which it has vanished cannot be continued)
+        viols.append({"class": "firings_not_accounted_for", "signature": sig,
+                      "detail": {"last_row": rows[-1].tolist(), "expected_from_firings": x.tolist(), "fired": fired,
+                                 "queued": queued}})
     return viols
 
 
